@@ -13,6 +13,7 @@ Reading guide
 -/
 import DeapModel.Lemmas.C05Cut
 import DeapModel.Lemmas.C05Crowd
+import DeapModel.Lemmas.C05Gen
 import DeapModel.Props.C04
 import Mathlib.Algebra.Order.Field.Rat
 import Mathlib.Tactic.NormNum
